@@ -577,6 +577,20 @@ fn main() {
 		"try_lock", "unlock", "fmt", "new", "new_ref", "new_unchecked", "raw", "child", "child_mut", "iter",
 		"iter_mut", "into_iter", "as_ref", "as_mut", "deref", "deref_mut", "get_mut", "into_inner", "into_child",
 		"is_poisoned", "clear_poison", "get", "try_new", "default", "from", "clone", "drop", "take", "replace", "swap",
+		// every name the rules (HLV/Static/Rules.lean) mention: a source that renames or drops one of
+		// them must change what the rules *find*, not whether the rules compile
+		"BoxedLockCollection", "Guard", "Keyable", "L", "Lockable", "Mutex", "MutexRef", "OwnedLockCollection",
+		"OwnedLockable", "Poisonable", "R", "RawLock", "ReadGuard", "RefLockCollection", "RetryingLockCollection",
+		"RwLock", "RwLockReadRef", "RwLockWriteRef", "Sealed", "Sharable", "T", "ThreadKey", "data_mut", "data_ref",
+		"get_ptrs", "guard", "ordered_read", "ordered_try_read", "ordered_try_write", "ordered_write", "poison",
+		"raw_read", "raw_try_read", "raw_try_write", "raw_unlock_read", "raw_unlock_write", "raw_write", "read_guard",
+		"scoped_lock", "scoped_read", "scoped_try_lock", "scoped_try_read", "scoped_try_write", "scoped_write",
+		"try_lock_no_key", "try_read", "try_read_no_key", "try_write", "try_write_no_key", "unlock_all_writes",
+		"unlock_all_reads", "handle_unwind", "force_unlock", "LockGuard", "PoisonRef", "PoisonGuard", "MutexGuard",
+		"RwLockReadGuard", "RwLockWriteGuard", "Key", "DataMut", "DataRef", "LockableIntoInner", "LockableGetMut",
+		"extend", "from_iter", "lock_api", "RawMutex", "RawRwLock", "unlock_shared", "unlock_exclusive",
+		"try_lock_shared", "try_lock_exclusive", "read", "write", "unlock_read", "unlock_write", "scoped", "then",
+		"then_some", "set", "with",
 	] {
 		c.syms.get(n);
 	}
